@@ -1,7 +1,7 @@
 SPECIFICATION Spec
-CONSTANT AlphaSel = "B"
-CONSTANT StepBound = 60
-CONSTANT MaxToks = 3
+CONSTANT AlphaSel = "Z"
+CONSTANT StepBound = 160
+CONSTANT MaxToks = 5
 INVARIANT StatusOK
 INVARIANT BalancedAtEnd
 INVARIANT TopLevelBalanced
